@@ -163,6 +163,10 @@ Definition sample_eqb (a b : sample) := (fst a =? fst b) && (snd a =? snd b).
 Definition sample3_eqb (a b : sample3) :=
   (fst a =? fst b) && (let '(p, q, r) := snd a in let '(p', q', r') := snd b in (p =? p') && (q =? q') && (r =? r')).
 
+(* the harness formula: the sum of the inputs; a missing (None) input value is written -1 and makes
+   the result missing (nones_are_zeros = False) *)
+Definition sumN (l : list Z) : Z := if existsb (Z.eqb (-1)) l then -1 else sumZ l.
+
 Definition engine_of (ss : list (list sample)) (ords : list (list nat)) : list sample :=
   let n := length ss in
-  engine n sumZ (of_list (seq 0 n) ords) (S (total_len ss)) (of_list [] ss).
+  engine n sumN (of_list (seq 0 n) ords) (S (total_len ss)) (of_list [] ss).
